@@ -65,6 +65,8 @@ func runC13(c *core.Ctx) {
 	checkHandOffSynchronous(c, "R13.7")
 	c.Rule("R13.8", "the request rebuilt for a retry asks for every key still owed: each entry of the tracker table reaches the rebuilt request", 1)
 	checkRebuildKeepsEveryEntry(c, "R13.8")
+	c.Rule("R13.14", "the stream a batch is written to is fixed with respect to recovery: between handing a batch to the reader and its next synchronisation with the recovery side the batcher reads no connection field that reconnect assigns", 1)
+	checkStreamFixedAtHandOff(c, "R13.14")
 	c.Rule("R13.13", "every variable index into a fixed-size package-level table of the pool is kept below the table's size by a dominating comparison: the pool's goroutines run outside any recover, an index out of range there ends the process", 3)
 	checkFixedTableIndices(c, "R13.13")
 	c.Rule("R13.12", "a caller never abandons its reply channel while the pool may still send on it: the loops receiving the replies of a multi-key request run until the channel is closed (or leave on the retry marker only if recovery sends it at most once per channel)", 2)
@@ -540,7 +542,8 @@ func checkHandOffSynchronous(c *core.Ctx, rule string) {
 	var field string
 	ssax.Instrs(rd, func(ins ssa.Instruction) {
 		if u, ok := ins.(*ssa.UnOp); ok && u.Op == token.ARROW {
-			if _, f, ok := fieldRead(u.X); ok && sent[f] {
+			// the hand-off carries the batch (its bookkeeping tables); signal channels between the two are no hand-off
+			if _, f, ok := fieldRead(u.X); ok && sent[f] && carriesTables(u.X.Type()) {
 				field = f
 			}
 		}
@@ -655,4 +658,22 @@ func checkRebuildKeepsEveryEntry(c *core.Ctx, rule string) {
 	if found == 0 {
 		c.Undecided(rule, "batched#rebuild", "-", "no function rebuilding a GetRequest from a map found")
 	}
+}
+
+// carriesTables reports whether a channel's element type is a struct with map-typed fields (the batch and its tables).
+func carriesTables(t types.Type) bool {
+	ch, ok := t.Underlying().(*types.Chan)
+	if !ok {
+		return false
+	}
+	st, ok := ch.Elem().Underlying().(*types.Struct)
+	if !ok {
+		return false
+	}
+	for i := 0; i < st.NumFields(); i++ {
+		if _, isMap := st.Field(i).Type().Underlying().(*types.Map); isMap {
+			return true
+		}
+	}
+	return false
 }
